@@ -422,6 +422,9 @@ pub fn run(ctx: &Ctx) -> Report {
             break;
         }
     }
+    if r.violations.is_empty() {
+        super::c07_twohop::run_part(ctx, &mut r);
+    }
     let ld = |a: &AtomicU64| a.load(Ordering::Relaxed);
     r.set("swap_steps_credited_to_positions", ld(&c.steps_credited));
     r.set("tick_crossings", ld(&c.crossings));
@@ -438,10 +441,14 @@ pub fn run(ctx: &Ctx) -> Report {
     r.set("exhaustive", false);
     r.assume("hook H2 reports each step's liquidity, fee and the crossed ticks; the active set is derived from position ranges and those crossings and cross-checked against each step's liquidity");
     r.assume("rounding bound: L_P/2^64 per credited step + 1 per position update, per token");
+    r.assume("two-hop part (c07_twohop): the two recorded swap computations are attributed to their pools by (direction, start price, start liquidity); indistinguishable pairs are counted and not judged");
     r
 }
 
 pub fn replay(case: &Value) -> Result<(), String> {
+    if let Some(r) = super::c07_twohop::replay_part(case) {
+        return r;
+    }
     let ws = worlds(true);
     let name = case["world"].as_str().ok_or("world")?;
     let wd = ws.iter().find(|w| w.b.name == name).ok_or("unknown world")?;
